@@ -1,5 +1,5 @@
 (** C07 — rejected invocations run nothing and follow the configured error policy. *)
-From MowCli Require Import Base Values Flow Cmd TreeProofs.
+From MowCli Require Import Base Values Flow Cmd TreeProofs TraceProofs.
 
 Section C07.
   Variable parse_float : str -> option str.
@@ -59,7 +59,20 @@ Section C07.
     destruct (c_action c); [congruence| | |];
       destruct (run_flow levels _) as [tr o]; cbn in *; subst o; reflexivity.
   Qed.
+
+  (** For EVERY tree and EVERY argument vector (nothing assumed about the invocation, any depth): when Run
+      ends with a usage or conversion error — returned under ContinueOnError, panicked with under
+      PanicOnError — no Before, Action or After of any command has run. *)
+  Theorem C07_error_runs_nothing_anywhere :
+    forall a argv e,
+      r_outcome (run parse_float getenv a argv) = RRet (Some e) \/
+      r_outcome (run parse_float getenv a argv) = RPanicErr e ->
+      r_trace (run parse_float getenv a argv) = [].
+  Proof.
+    intros a argv e H. apply run_error_runs_nothing. destruct H as [-> | ->]; reflexivity.
+  Qed.
 End C07.
+Print Assumptions C07_error_runs_nothing_anywhere.
 Print Assumptions C07_reject_runs_nothing.
 Print Assumptions C07_policy.
 Print Assumptions C07_usage_of_rejecting_command.
